@@ -20,7 +20,7 @@ DEEP_PROBES = ('150 live groups through every higher-order operator; roll(260,13
 ASSUMPTIONS = ['the environment itself is well-formed and carries no mux errors except for the error handlers',
                'the joining half of higher-order operators is checked with a spanning set of inner tail behaviours {streaming, '
                'silent, expanding, completion burst, mixed}, cross-checked by the nested enumeration (b)',
-               'boundaries are observed where rx.pipe composes operators (rxsci builds all its composites through it)']
+               'boundaries are observed where rx.pipe composes operators (named after the operator) and, independently of how operators are composed, on every MuxObservable the library constructs; the latter see what a subscriber sees, i.e. behind RxPY\'s auto-detach']
 LEVEL_TEXT = ('Bounded-exhaustive model checking of an invariant (protocol automaton) on every internal boundary: if every operator '
               'maps every well-formed input history to well-formed output at all its boundaries, well-formedness of arbitrarily '
               'nested pipelines follows by induction over the pipeline structure; the nested enumeration cross-checks the residual '
